@@ -418,8 +418,15 @@ def module_consts(repo, f):
         pass
     consts = Consts()
     consts.exprs = {}
+    # constants defined from other constants (MASK = (1 << SHIFT) - 1) fold once those are known
+    for _round in range(3):
+        for nm, v in f.module.assigns.items():
+            if nm not in consts:
+                k = try_fold(v, env=dict(consts))
+                if isinstance(k, (int, float, str)) and not isinstance(k, bool):
+                    consts[nm] = k
     for nm, v in f.module.assigns.items():
-        k = try_fold(v)
+        k = consts.get(nm)
         if isinstance(k, (int, float, str)) and not isinstance(k, bool):
             consts[nm] = k
         elif normal._pure_expr(v) and not any(isinstance(x, ast.Name) and x.id not in ('np', 're', 'numpy') and x.id not in f.module.assigns
